@@ -112,6 +112,7 @@ theorem registry_table :
         (some N_html, mkXMLFormatter { entity_substitution := .html }),
         (some N_minimal, mkXMLFormatter { entity_substitution := .xml }) ] := by decide
 
+/-- a registry lookup raises `KeyError` exactly for the keys the registry does not have -/
 theorem lookup_keyError_iff (reg : List (Option PStr × Cfg)) (n : Option PStr) :
     lookup reg n = .keyError ↔ n ∉ reg.map (·.1) := by
   unfold lookup
@@ -202,10 +203,12 @@ theorem option_effect_subst_Formatter (l : Option Lang) (a : Args) (s : Subst) (
     render (mkFormatter l { a with entity_substitution := s }) i par n
       = (toks par n).flatMap (withSubst s i (mkFormatter l a).cdata_containing_tags a.empty_attributes_are_booleans
           (interpTok (mkFormatter l a) i)) := effect_subst l a s i par n
+/-- the same for `HTMLFormatter` -/
 theorem option_effect_subst_HTMLFormatter (a : Args) (s : Subst) (i : Subst → PStr → PStr) (par : Option PStr) (n : Node) :
     render (mkHTMLFormatter { a with entity_substitution := s }) i par n
       = (toks par n).flatMap (withSubst s i (mkHTMLFormatter a).cdata_containing_tags a.empty_attributes_are_booleans
           (interpTok (mkHTMLFormatter a) i)) := effect_subst _ a s i par n
+/-- the same for `XMLFormatter` -/
 theorem option_effect_subst_XMLFormatter (a : Args) (s : Subst) (i : Subst → PStr → PStr) (par : Option PStr) (n : Node) :
     render (mkXMLFormatter { a with entity_substitution := s }) i par n
       = (toks par n).flatMap (withSubst s i (mkXMLFormatter a).cdata_containing_tags a.empty_attributes_are_booleans
@@ -218,11 +221,13 @@ theorem option_effect_cdata_Formatter (l : Option Lang) (a : Args) (cd : Option 
     render (mkFormatter l { a with cdata_containing_tags := cd }) i par n
       = (toks par n).flatMap (withCdata (default_ (l.getD .html) cd) a.entity_substitution i (interpTok (mkFormatter l a) i)) :=
   effect_cdata l a cd i par n
+/-- the same for `HTMLFormatter`, whose default is `{script, style}` -/
 theorem option_effect_cdata_HTMLFormatter (a : Args) (cd : Option (List PStr)) (i : Subst → PStr → PStr) (par : Option PStr) (n : Node) :
     render (mkHTMLFormatter { a with cdata_containing_tags := cd }) i par n
       = (toks par n).flatMap (withCdata (cd.getD [SCRIPT, STYLE]) a.entity_substitution i (interpTok (mkHTMLFormatter a) i)) := by
   have := effect_cdata (some .html) a cd i par n
   cases cd <;> simpa [default_, BS.Gen.fmtHtmlDefaultCdata, mkHTMLFormatter] using this
+/-- the same for `XMLFormatter`, whose default is the empty set -/
 theorem option_effect_cdata_XMLFormatter (a : Args) (cd : Option (List PStr)) (i : Subst → PStr → PStr) (par : Option PStr) (n : Node) :
     render (mkXMLFormatter { a with cdata_containing_tags := cd }) i par n
       = (toks par n).flatMap (withCdata (cd.getD []) a.entity_substitution i (interpTok (mkXMLFormatter a) i)) := by
@@ -234,9 +239,11 @@ theorem option_effect_cdata_XMLFormatter (a : Args) (cd : Option (List PStr)) (i
 theorem option_effect_eab_Formatter (l : Option Lang) (a : Args) (b : Bool) (i : Subst → PStr → PStr) (par : Option PStr) (n : Node) :
     render (mkFormatter l { a with empty_attributes_are_booleans := b }) i par n
       = (toks par n).flatMap (withEab b a.entity_substitution i (interpTok (mkFormatter l a) i)) := effect_eab l a b i par n
+/-- the same for `HTMLFormatter` -/
 theorem option_effect_eab_HTMLFormatter (a : Args) (b : Bool) (i : Subst → PStr → PStr) (par : Option PStr) (n : Node) :
     render (mkHTMLFormatter { a with empty_attributes_are_booleans := b }) i par n
       = (toks par n).flatMap (withEab b a.entity_substitution i (interpTok (mkHTMLFormatter a) i)) := effect_eab _ a b i par n
+/-- the same for `XMLFormatter` -/
 theorem option_effect_eab_XMLFormatter (a : Args) (b : Bool) (i : Subst → PStr → PStr) (par : Option PStr) (n : Node) :
     render (mkXMLFormatter { a with empty_attributes_are_booleans := b }) i par n
       = (toks par n).flatMap (withEab b a.entity_substitution i (interpTok (mkXMLFormatter a) i)) := effect_eab _ a b i par n
@@ -278,6 +285,13 @@ example : pretty (mkHTMLFormatter { entity_substitution := .xml, indent := .str 
     = ofS "<p a=\"\" b=\"&amp;\">\n\t<br/>\n\tx&amp;y\n\t<script>\n\t\t1&2\n\t</script>\n\t<!--&-->\n</p>\n" := by decide +kernel
 example : pretty (mkHTMLFormatterOld { entity_substitution := .xml, indent := .str [9] }) builtin 0 none sample
     = ofS "<p a=\"\" b=\"&amp;\">\n <br/>\n x&amp;y\n <script>\n  1&2\n </script>\n <!--&-->\n</p>\n" := by decide +kernel
+
+example : render (mkXMLFormatter { entity_substitution := .xml, empty_attributes_are_booleans := true }) builtin none sample
+    = ofS "<p a b=\"&amp;\"><br/>x&amp;y<script>1&amp;2</script><!--&--></p>" := by decide +kernel
+example : render (mkXMLFormatter { entity_substitution := .xml, cdata_containing_tags := some [SCRIPT] }) builtin none sample
+    = ofS "<p a=\"\" b=\"&amp;\"><br/>x&amp;y<script>1&2</script><!--&--></p>" := by decide +kernel
+example : pretty (mkXMLFormatter { entity_substitution := .xml, indent := .int 0 }) builtin 0 none sample
+    = ofS "<p a=\"\" b=\"&amp;\">\n<br/>\nx&amp;y\n<script>\n1&amp;2\n</script>\n<!--&-->\n</p>\n" := by decide +kernel
 
 /-! ## scope of a custom substitution function -/
 
@@ -334,6 +348,7 @@ theorem attrs_sorted_deep (c : Cfg) (i : Subst → PStr → PStr) (par : Option 
   · rw [← render_canon c i par t₁, ← render_canon c i par t₂, h]
   · intro lv; unfold pretty; rw [← prettyItems_canon c i lv false par t₁, ← prettyItems_canon c i lv false par t₂, h]
 
+/-- permuting a tag's attributes (distinct keys) does not change its canonical form -/
 theorem canon_perm (n p : PStr) (as₁ as₂ : List (PStr × AttrVal)) (cbe pre : Bool) (ks : List Node)
     (hp : as₁.Perm as₂) (hd : (as₁.map (·.1)).Nodup) :
     canon (.tag n p as₁ cbe pre ks) = canon (.tag n p as₂ cbe pre ks) := by
